@@ -105,8 +105,9 @@ func (c *scriptConn) SetWriteDeadline(t time.Time) error { return nil }
 // ---------------------------------------------------------------------------------------------------
 
 type scriptedResult struct {
-	msg *Node // nil = nil message
-	err *string
+	msg    *Node // nil = nil message
+	err    *string
+	expect string // the call the scripting reference store answered ("" = any call)
 }
 
 type double struct {
@@ -137,7 +138,23 @@ func (d *double) answer(conn *redis.Conn, call string) (*redis.Message, error) {
 		return nil, nil
 	}
 	r := d.script[0]
-	if len(d.script) > 1 {
+	if r.expect != "" && r.expect != call {
+		// Go iterates maps in no particular order (MSET, HMSET, MSETNX): accept the answer scripted for this
+		// very call if it comes a little later; otherwise the framework asked the store something the request is
+		// not defined to ask, and no scripted answer applies.
+		found := -1
+		for i := 1; i < len(d.script) && i < 16; i++ {
+			if d.script[i].expect == call {
+				found = i
+				break
+			}
+		}
+		if found < 0 {
+			return nil, fmt.Errorf("unexpected handler call %s", call)
+		}
+		r = d.script[found]
+		d.script = append(append([]scriptedResult{}, d.script[:found]...), d.script[found+1:]...)
+	} else if len(d.script) > 1 {
 		d.script = d.script[1:]
 	}
 	var msg *redis.Message
@@ -368,6 +385,10 @@ func parseScript(toks []string) []scriptedResult {
 			return
 		}
 		var r scriptedResult
+		if cur[0] == "c" && len(cur) > 2 {
+			r.expect = cur[1]
+			cur = cur[2:]
+		}
 		switch cur[0] {
 		case "r":
 			n, _ := parseNode(cur[1:])
